@@ -1,6 +1,7 @@
 package main
 
 import (
+	"os"
 	"fmt"
 	"io/ioutil"
 	"path/filepath"
@@ -12,21 +13,33 @@ import (
 
 // probeDefs prints definition/references/hover for every identifier in dir/main.lua.
 func probeDefs(dir string) {
-	src, _ := ioutil.ReadFile(filepath.Join(dir, "main.lua"))
+	mainName := "main.lua"
+	if len(os.Args) > 3 {
+		mainName = os.Args[3]
+	}
+	src, _ := ioutil.ReadFile(filepath.Join(dir, mainName))
 	s, err := lib.StartSession(dir, lib.AllChecksOptions())
 	if err != nil {
 		fmt.Println("ERR", err)
 		return
 	}
 	defer s.Close()
-	s.DidOpen("main.lua", string(src))
+	if ents, err := ioutil.ReadDir(dir); err == nil && len(ents) > 1 {
+		for _, e := range ents {
+			if strings.HasSuffix(e.Name(), ".lua") && e.Name() != mainName {
+				b, _ := ioutil.ReadFile(filepath.Join(dir, e.Name()))
+				s.DidOpen(e.Name(), string(b))
+			}
+		}
+	}
+	s.DidOpen(mainName, string(src))
 	s.Sync()
 	re := regexp.MustCompile(`[A-Za-z_][A-Za-z0-9_]*`)
 	for ln, line := range strings.Split(string(src), "\n") {
 		for _, m := range re.FindAllStringIndex(line, -1) {
 			name := line[m[0]:m[1]]
-			locs, _ := s.Definition("main.lua", ln, m[0])
-			refs, _ := s.References("main.lua", ln, m[0], true)
+			locs, _ := s.Definition(mainName, ln, m[0])
+			refs, _ := s.References(mainName, ln, m[0], true)
 			d := "-"
 			if len(locs) > 0 {
 				d = fmt.Sprintf("%d:%d-%d", locs[0].Range.Start.Line, locs[0].Range.Start.Character, locs[0].Range.End.Character)
@@ -35,8 +48,8 @@ func probeDefs(dir string) {
 			for _, r := range refs {
 				rs = append(rs, fmt.Sprintf("%d:%d", r.Range.Start.Line, r.Range.Start.Character))
 			}
-			hv, _ := s.Hover("main.lua", ln, m[0])
-			hl, _ := s.Highlight("main.lua", ln, m[0])
+			hv, _ := s.Hover(mainName, ln, m[0])
+			hl, _ := s.Highlight(mainName, ln, m[0])
 			fmt.Printf("%d:%d %-8s def=%-10s refs=%v hl=%d hover=%q\n", ln, m[0], name, d, rs, len(hl), lib.Trunc(hv, 60))
 		}
 	}
